@@ -356,5 +356,23 @@ func apiSpecs() []*HarnessSpec {
 		Quick:    []Grid{{"family": {0, 1, 2, 3}, "n": {64}}},
 		Thorough: []Grid{{"family": {0, 1, 2, 3}, "n": {16, 64, 256}}},
 		Note:     "adversarial concrete families (caterpillar, long steps, fan-out 11 byte nodes, many distinct bitmaps) with a symbolic tail: upper-bound measure <= 8n+256; real size checked on the native replays"})
+	// ---- C06 ----
+	out = append(out, &HarnessSpec{Name: "l2_legacy0509", Pkg: "trie", Property: "C06", Witness: 1,
+		Quick: []Grid{{"n": {0, 1}, "L": {2}, "lens": {0, 1, 2}, "variant": {0, 1, 3, 4}, "hdr": {0, 1, 2}},
+			{"n": {2}, "L": {2}, "lens": rng(0, 8), "variant": {0, 1, 3, 4}, "hdr": {0, 2}},
+			{"n": {3}, "L": {1}, "lens": rng(0, 7), "variant": {0, 3}, "hdr": {0}, "alpha": {1}}},
+		Thorough: []Grid{{"n": {0, 1, 2}, "L": {2}, "lens": rng(0, 8), "variant": {0, 1, 2, 3, 4, 5}, "hdr": {0, 1, 2}},
+			{"n": {3}, "L": {2}, "lens": rng(0, 26), "variant": {0, 1, 3, 4}, "hdr": {0, 2}, "alpha": {1}},
+			{"n": {3}, "L": {1}, "lens": rng(0, 7), "variant": {0, 3}, "hdr": {0}}},
+		Note: "symbolic key set -> writer model G.1 (u32 children with symbolic upper halves / 16-bit bitmap children / extended bitmaps / steps on leaves; header 1.0.0, 0.5.8, 0.5.9) -> three pbcmpl sections -> real Unmarshal (version dispatch, before000510ToNewChildrenArray, creator) -> Get/RangeGet/Search on every key; unchanged after the buffer is overwritten"})
+	out = append(out, &HarnessSpec{Name: "l2_legacy0510", Pkg: "trie", Property: "C06", Witness: 1,
+		Quick: []Grid{{"n": {0, 1}, "L": {2}, "lens": {0, 1, 2}, "opt": {0, 2, 8, 1, 9}, "enc": {1, 0}, "hdr": {0, 1}, "lq": {1, 2}},
+			{"n": {2}, "L": {2}, "lens": rng(0, 8), "opt": {0, 2, 8}, "enc": {1}, "hdr": {0}, "lq": {2}},
+			{"n": {2}, "L": {1}, "lens": rng(0, 3), "opt": {8}, "enc": {1}, "hdr": {0}, "lq": {1}, "alpha": {1}},
+			{"n": {3}, "L": {1}, "lens": rng(0, 7), "opt": {2}, "enc": {1}, "hdr": {0}, "lq": {2}}},
+		Thorough: []Grid{{"n": {0, 1, 2}, "L": {2}, "lens": rng(0, 8), "opt": {0, 2, 8, 1, 3, 9}, "enc": {1, 0, 4}, "hdr": {0, 1}, "lq": {0, 1, 2, 3}},
+			{"n": {2}, "L": {2}, "lens": rng(0, 8), "opt": {8, 9}, "enc": {1}, "hdr": {0}, "lq": {1, 2}, "alpha": {1}},
+			{"n": {3}, "L": {2}, "lens": rng(0, 26), "opt": {0, 2, 8}, "enc": {1}, "hdr": {0}, "lq": {1, 2, 3}}},
+		Note: "message of the current builder rewritten by writer model G.2 into the 0.5.10/0.5.11 layout (nopref / innpref / allpref) -> real Unmarshal (before000512InnerPrefixTobitstr, before000512FixLeafSize, init) -> same answers as the index it encodes for a symbolic query; exact absent-key answers and scans for allpref"})
 	return out
 }
